@@ -349,6 +349,36 @@ func runC08R5(c *Ctx, r *Rep) {
 		}
 	}
 	r.check(len(ws) > 0, "py|Code|writers found", token.NoPos, fmt.Sprintf("%d construction-time writers", len(ws)), "no writer of py.Code fields found: the anchor type changed")
+	// the sanctioned writer methods of package py are themselves only called during construction
+	for _, wm := range []string{"InitCell2arg"} {
+		m := c.Method("py", "Code", wm)
+		if m == nil {
+			continue
+		}
+		for _, pk := range c.All {
+			for _, f := range c.Files(pk) {
+				for _, d := range f.Decls {
+					fd, ok := d.(*ast.FuncDecl)
+					if !ok || fd.Body == nil {
+						continue
+					}
+					ast.Inspect(fd.Body, func(n ast.Node) bool {
+						call, ok := n.(*ast.CallExpr)
+						if !ok || Callee(pk.TypesInfo, call) != m {
+							return true
+						}
+						id := declID(pk, fd)
+						sp := shortPkg(pk.PkgPath)
+						okCaller := sp == "compile" || sp == "stdlib/marshal" || (sp == "py" && strings.HasSuffix(id, "NewCode"))
+						r.check(okCaller, fmt.Sprintf("%s|%s|calls Code.%s", sp, id, wm), call.Pos(),
+							"called while the code object is being constructed",
+							fmt.Sprintf("%s calls (*py.Code).%s, which assigns fields of the code object, outside its construction: running a code object must not write to it — it is shared by every frame, goroutine and context that executes it (lazy initialisation races)", id, wm))
+						return true
+					})
+				}
+			}
+		}
+	}
 }
 
 func runC08R6(c *Ctx, r *Rep) {
